@@ -219,8 +219,9 @@ def r10_8(ck: Check) -> None:
     start = [e for e in s.events if e.kind == "call" and CRP + "start_sending" in e.targets]
     idle = s.norm.mk_cmp_s("==", ("call", ("g", "builtin:len"), (buf,), ()), C(0), None)
     pop0 = ("call", ("a", backlog, "pop"), (C(0),), ())
+    popleft = ("call", ("a", backlog, "popleft"), (), ())        # (a deque: the same end)
     construct = "send_message: when nothing is in flight, the oldest queued frame becomes the send buffer and write-readiness is requested"
-    if len(st) == 1 and st[0].value == pop0 and len(start) == 1 and aps and aps[0].seq < st[0].seq < start[0].seq \
+    if len(st) == 1 and st[0].value in (pop0, popleft) and len(start) == 1 and aps and aps[0].seq < st[0].seq < start[0].seq \
             and {x for c in st[0].pc for x in conjuncts(c.term)} == {idle} == {x for c in start[0].pc for x in conjuncts(c.term)}:
         ck.ok("R10.8", construct, "", st[0].loc)
     else:
@@ -238,7 +239,7 @@ def r10_8(ck: Check) -> None:
         ck.violated("R10.8", construct, "%s" % [e.describe()[:140] for e in sends + stores], c.fi.loc)
     empty = c.norm.mk_cmp_s("==", ("call", ("g", "builtin:len"), (buf,), ()), C(0), None)     # (read after the store: the remaining bytes)
     noq = c.norm.mk_cmp_s("==", ("call", ("g", "builtin:len"), (backlog,), ()), C(0), None)
-    nxt = [e for e in stores[1:] if e.value == ("call", ("a", backlog, "pop"), (C(0),), ())]
+    nxt = [e for e in stores[1:] if e.value in (("call", ("a", backlog, "pop"), (C(0),), ()), ("call", ("a", backlog, "popleft"), (), ()))]
     stop = [e for e in c.events if e.kind == "call" and not e.chain and CRP + "stop_sending" in e.targets]
     cs = lambda e: {x for cj in e.pc for x in conjuncts(cj.term)}   # noqa
     from ..engine.terms import mk_not
